@@ -20,10 +20,22 @@ use super::{catch, fnv, run_model, Options, Report, Rng};
 use crate::service::{BlockFilterRpc, ScriptStatus, ScriptType, SetScriptsCommand};
 use crate::storage::{extract_raw_data, KeyPrefix};
 
-const N_SCRIPTS: u64 = 3;
+pub(crate) const N_SCRIPTS: u64 = 3;
 
-fn script_of(id: u64) -> Script {
+pub(crate) fn script_of(id: u64) -> Script {
     script(0x40 + id as u8, &[id as u8])
+}
+
+/// registration ids: 1..=3 = script 1..3 registered as a lock script, 11..=13 = the SAME scripts
+/// registered as type scripts
+pub(crate) const ALL_IDS: [u64; 6] = [1, 2, 3, 11, 12, 13];
+
+pub(crate) fn reg_of(id: u64) -> (Script, ScriptType) {
+    if id > 10 {
+        (script_of(id - 10), ScriptType::Type)
+    } else {
+        (script_of(id), ScriptType::Lock)
+    }
 }
 
 pub struct World {
@@ -38,7 +50,8 @@ pub struct World {
 pub fn build_world(rng: &mut Rng, n_blocks: u64) -> World {
     let mut chain = SimChain::new_dummy();
     let mut touches: BTreeMap<u64, BTreeSet<(u64, u64)>> = BTreeMap::new();
-    let mut live: Vec<(Byte32, u32, u64, u64)> = Vec::new(); // (tx hash, idx, script id, block)
+    // (tx hash, idx, lock script id, type script id (0 = none), block)
+    let mut live: Vec<(Byte32, u32, u64, u64, u64)> = Vec::new();
     for b in 1..=n_blocks {
         let mut txs: Vec<TransactionView> = Vec::new();
         let n_tx = if rng.chance(1, 3) { rng.range(1, 2) } else { 0 };
@@ -46,15 +59,23 @@ pub fn build_world(rng: &mut Rng, n_blocks: u64) -> World {
             let mut inputs = Vec::new();
             if !live.is_empty() && rng.chance(1, 2) {
                 let i = rng.below(live.len() as u64) as usize;
-                let (h, idx, sid, created) = live.remove(i);
+                let (h, idx, sid, tid, created) = live.remove(i);
                 inputs.push((h, idx));
                 touches.entry(sid).or_default().insert((b, created));
+                if tid != 0 {
+                    touches.entry(10 + tid).or_default().insert((b, created));
+                }
             }
             let sid = rng.range(1, N_SCRIPTS);
-            let outputs = vec![(script_of(sid), None, 100_0000_0000u64 + b, vec![])];
+            let tid = if rng.chance(1, 3) { rng.range(1, N_SCRIPTS) } else { 0 };
+            let type_ = if tid != 0 { Some(script_of(tid)) } else { None };
+            let outputs = vec![(script_of(sid), type_, 200_0000_0000u64 + b, vec![])];
             let t = tx(&inputs, &outputs, b * 10 + k);
-            live.push((t.hash(), 0, sid, b));
+            live.push((t.hash(), 0, sid, tid, b));
             touches.entry(sid).or_default().insert((b, b));
+            if tid != 0 {
+                touches.entry(10 + tid).or_default().insert((b, b));
+            }
             txs.push(t);
         }
         chain.append_with_txs(txs);
@@ -71,15 +92,25 @@ pub enum Step {
 }
 
 pub fn gen_steps(rng: &mut Rng, tip: u64, len: usize) -> Vec<Step> {
-    let mut steps = vec![Step::Set(0, vec![(rng.range(1, N_SCRIPTS), rng.below(tip / 2))])];
+    let first = *rng.pick(&ALL_IDS);
+    let mut steps = vec![Step::Set(0, vec![(first, rng.below(tip / 2))])];
+    // ids named so far: a later command often names the same script under the other script type
+    let mut named = vec![first];
     for _ in 0..len {
         if rng.chance(1, 4) {
             let cmd = rng.below(3) as u8;
             let n = rng.below(3);
             let list: Vec<(u64, u64)> = (0..n)
                 .map(|_| {
+                    let id = if rng.chance(1, 3) {
+                        let t = *rng.pick(&named);
+                        if t > 10 { t - 10 } else { t + 10 }
+                    } else {
+                        *rng.pick(&ALL_IDS)
+                    };
+                    named.push(id);
                     (
-                        rng.range(1, N_SCRIPTS),
+                        id,
                         *rng.pick(&[0u64, 1, tip / 3, tip / 2, tip - 1, tip, tip + 5]),
                     )
                 })
@@ -92,6 +123,7 @@ pub fn gen_steps(rng: &mut Rng, tip: u64, len: usize) -> Vec<Step> {
     steps
 }
 
+#[derive(Clone, Debug, PartialEq)]
 pub struct Obs {
     pub scripts: BTreeMap<u64, u64>,
     pub min_f: u64,
@@ -105,6 +137,7 @@ pub(crate) fn observe(node: &Node, chain: &SimChain) -> Obs {
         let raw = extract_raw_data(&ss.script);
         for id in 1..=N_SCRIPTS {
             if extract_raw_data(&script_of(id)) == raw {
+                let id = if matches!(ss.script_type, crate::storage::ScriptType::Type) { id + 10 } else { id };
                 scripts.insert(id, ss.block_number);
             }
         }
@@ -157,8 +190,9 @@ pub fn show_obs(o: &Obs) -> String {
 /// blocks of the chain indexed for script `sid` (from the transaction history keyspace)
 pub(crate) fn indexed_blocks(node: &Node, sid: u64) -> BTreeSet<u64> {
     use rocksdb::{prelude::*, Direction, IteratorMode};
-    let mut prefix = vec![KeyPrefix::TxLockScript as u8];
-    prefix.extend_from_slice(&extract_raw_data(&script_of(sid)));
+    let (sc, ty) = reg_of(sid);
+    let mut prefix = vec![if matches!(ty, ScriptType::Type) { KeyPrefix::TxTypeScript as u8 } else { KeyPrefix::TxLockScript as u8 }];
+    prefix.extend_from_slice(&extract_raw_data(&sc));
     let mut out = BTreeSet::new();
     for (k, _) in node
         .i()
@@ -192,7 +226,7 @@ pub struct RunOut {
 }
 
 /// the model op for a message the client just handled, from what it did to the store
-fn model_op_after(
+pub(crate) fn model_op_after(
     before: &Obs,
     after: &Obs,
     kind: &str,
@@ -276,10 +310,9 @@ pub(crate) fn run_steps(
                 let before = observe(&node, chain);
                 let statuses: Vec<ScriptStatus> = list
                     .iter()
-                    .map(|(id, n)| ScriptStatus {
-                        script: script_of(*id).into(),
-                        script_type: ScriptType::Lock,
-                        block_number: (*n).into(),
+                    .map(|(id, n)| {
+                        let (sc, ty) = reg_of(*id);
+                        ScriptStatus { script: sc.into(), script_type: ty, block_number: (*n).into() }
                     })
                     .collect();
                 let command = match cmd {
@@ -428,7 +461,7 @@ pub(crate) fn run_steps(
 
 fn _chain_of_unused<'a>(_f: &dyn Fn(PeerIndex) -> Option<&'a SimChain>) {}
 
-fn classify(protocol: ProtocolId, data: &Bytes) -> (String, u64) {
+pub(crate) fn classify(protocol: ProtocolId, data: &Bytes) -> (String, u64) {
     if protocol == SupportProtocols::Filter.protocol_id() {
         if let Ok(m) = packed::BlockFilterMessageReader::from_compatible_slice(data) {
             if let packed::BlockFilterMessageUnionReader::BlockFilters(r) = m.to_enum() {
@@ -486,7 +519,7 @@ pub(crate) fn converge(node: &mut Node, world: &World, now: &mut u64) -> BTreeMa
         );
     }
     let mut out = BTreeMap::new();
-    for sid in 1..=N_SCRIPTS {
+    for sid in ALL_IDS {
         out.insert(sid, indexed_blocks(node, sid));
     }
     out
